@@ -650,6 +650,14 @@ pub async fn rtu_server_reopen(k: usize, ev: &mut Evidence) -> Vec<(String, Stri
             problems.push(("rtu_server:valid_frame_reply".into(), format!("request {} answered with {}", hex(&good), hex(&reply))));
             break 'script;
         }
+        // the beginning of a frame is still on its way when the port goes away: the new port is a new
+        // stream and must not inherit it
+        if k % 2 == 1 {
+            let a2 = a.clone();
+            let _ = tokio::task::spawn_blocking(move || a2.write(&[7, 3, 0])).await;
+            tokio::time::sleep(Duration::from_millis(40)).await;
+            ev.count("rtu_server_port_lost_mid_frame", 1);
+        }
         if !point_link(&link, &b.slave_path) {
             ev.inconclusive("rtu server reopen leg: cannot re-point the symlink");
             break 'script;
